@@ -7,14 +7,15 @@ HARD = [[0.557185, -0.795699, -0.305963, -0.884653], [-0.564027, -0.505376, -0.2
 METHODS = (("mem2/newton", "mem2", {"solution_method": "newton"}), ("mem2/scipy", "mem2", {"solution_method": "scipy"}), ("mem", "mem", {}))
 
 
-def vm_moments(np, N, rng, nlobes):
-    """moments of 1-2 von-Mises lobes (circular spread >= 1.5 direction bins) plus an isotropic background, by fine quadrature"""
+def vm_moments(np, N, rng, nlobes, spread_bins=None):
+    """moments of 1-2 von-Mises lobes (circular spread >= 1.5 direction bins) plus an isotropic background, by fine quadrature;
+    spread_bins: a fixed narrow spread (in bins) with a weak background - the resolvable end of the quantifier"""
     th = np.linspace(0, 2 * np.pi, 14400, endpoint=False)
-    D = np.full_like(th, rng.uniform(0.02, 0.3) / (2 * np.pi))
+    D = np.full_like(th, (rng.uniform(0.02, 0.3) if spread_bins is None else 0.01) / (2 * np.pi))
     binw = 2 * np.pi / N
     desc = []
     for _ in range(nlobes):
-        sigma = rng.uniform(1.5 * binw, 1.2)
+        sigma = rng.uniform(1.5 * binw, 1.2) if spread_bins is None else spread_bins * binw
         mu = rng.uniform(0, 2 * np.pi)
         lobe = np.exp((np.cos(th - mu) - 1) / sigma ** 2)
         D += rng.uniform(0.3, 1) * lobe / lobe.sum() * len(th) / (2 * np.pi)
@@ -74,6 +75,7 @@ def bounded_fidelity(tier, seed):
     for N in (24, 36, 72, 144):
         direction = np.linspace(0, 360, N, endpoint=False)
         gen = [vm_moments(np, N, rng, 1 + (k % 2)) for k in range(per_grid)]
+        gen += [vm_moments(np, N, rng, 1, spread_bins=sb) for sb in (1.5, 2.0, 3.0, 5.0)]        # narrow single lobes, all grids
         M = np.array([g[0] for g in gen])
         out = {}
         for name, method, kw in METHODS:
@@ -106,6 +108,6 @@ def bounded_fidelity(tier, seed):
         equivariance(name, method, kw, H, D, direction, "hard cases")
     return {"evaluations": int(evals), "distinct": int(evals), "failures": fails, "samples": samples,
             "domain": (f"estimate_directional_distribution (compiled): mem2/newton, mem2/scipy, mem; N in {{24,36,72,144}}; {per_grid} von-Mises mixtures per grid "
-                       f"(1-2 lobes, spread >= 1.5 bins, background), {nrot} random bin rotations + mirror each; the 5 hard cases of the test-suite with rotations "
+                       f"(1-2 lobes, spread >= 1.5 bins, background) + 4 narrow single lobes (1.5, 2, 3, 5 bins), {nrot} random bin rotations + mirror each; the 5 hard cases of the test-suite with rotations "
                        f"and mirrors; oracles: four-moment error < 0.01 (MEM2), < 0.03 (MEM), Newton vs scipy < 0.01, rotation/mirror max abs difference <= 2e-5; "
                        f"worst seen: " + ", ".join(f"{k}={v:.2e}" for k, v in sorted(worst.items())))}
